@@ -49,6 +49,10 @@ pub struct Teardown {
     pub pool: Option<(u8, u8)>,
     /// Call wake() on a surviving queue handle after the Ring is gone.
     pub wake_after: bool,
+    /// Requests consumed by the submit-only flush of the Ring's drop complete
+    /// inline (their completion is visible before the final poll).
+    #[serde(default)]
+    pub inline_on_flush: bool,
 }
 
 #[derive(Clone, Debug, Serialize, Deserialize)]
@@ -880,6 +884,57 @@ impl<'a> Exec<'a> {
         }
     }
 
+    /// The kernel posts the scripted completion of the current attempt of
+    /// operation `i`.
+    fn complete_index(&mut self, ring: &mut SimRing, i: usize) {
+        let serial = self.ops[i].serial.unwrap();
+        let Some(req) = ring.req(serial).cloned() else {
+            self.ctx.skipped_steps += 1;
+            return;
+        };
+        if req.done {
+            return;
+        }
+        let attempt = self.ops[i].attempts - 1;
+        let op = &mut self.ops[i];
+        let (res, flags, is_fault) = if attempt < op.faults.len() {
+            op.st.kernel_interrupt(&req);
+            (-op.faults[attempt].errno(), 0, true)
+        } else {
+            match op.st.kernel_complete(&req, &op.outcome.clone()) {
+                Ok((res, flags)) => (res, flags, false),
+                Err(e) => {
+                    let (sig, msg) = e.split_once(": ").unwrap_or((&e, ""));
+                    let (sig, msg) = (sig.to_string(), msg.to_string());
+                    // Complete with an error so the model stays in step.
+                    let e = libc::EFAULT;
+                    op.st.expect = Some(ops::Expect::Errno(e));
+                    if self.oracles.c01 {
+                        self.violation(&sig, format!("operation {i}: {msg}"));
+                    }
+                    (-e, 0, false)
+                }
+            }
+        };
+        if is_fault {
+            self.feat("fault");
+        }
+        let my_order = self.ops[i].submit_order;
+        if self.ops.iter().any(|o| o.phase == Phase::Submitted && o.serial.is_some() && o.final_seq.is_none() && !o.final_skipped && o.submit_order < my_order) {
+            self.feat("out-of-order");
+        }
+        let seq = ring.complete(serial, res, flags, false);
+        let op = &mut self.ops[i];
+        op.final_is_fault = is_fault;
+        match seq {
+            Some(seq) => op.final_seq = Some(seq),
+            None => op.final_skipped = true,
+        }
+        if op.phase == Phase::Dropped {
+            self.feat("completed-after-drop");
+        }
+    }
+
     /// Execute one kernel action on `ring` (the simulator lock may be held by
     /// the caller: nothing in here locks it).
     fn kact(&mut self, ring: &mut SimRing, act: &KAct) {
@@ -891,52 +946,7 @@ impl<'a> Exec<'a> {
                     return;
                 }
                 let i = candidates[pick_index(*op, candidates.len())];
-                let serial = self.ops[i].serial.unwrap();
-                let Some(req) = ring.req(serial).cloned() else {
-                    self.ctx.skipped_steps += 1;
-                    return;
-                };
-                if req.done {
-                    return;
-                }
-                let attempt = self.ops[i].attempts - 1;
-                let op = &mut self.ops[i];
-                let (res, flags, is_fault) = if attempt < op.faults.len() {
-                    op.st.kernel_interrupt(&req);
-                    (-op.faults[attempt].errno(), 0, true)
-                } else {
-                    match op.st.kernel_complete(&req, &op.outcome.clone()) {
-                        Ok((res, flags)) => (res, flags, false),
-                        Err(e) => {
-                            let (sig, msg) = e.split_once(": ").unwrap_or((&e, ""));
-                            let (sig, msg) = (sig.to_string(), msg.to_string());
-                            // Complete with an error so the model stays in step.
-                            let e = libc::EFAULT;
-                            op.st.expect = Some(ops::Expect::Errno(e));
-                            if self.oracles.c01 {
-                                self.violation(&sig, format!("operation {i}: {msg}"));
-                            }
-                            (-e, 0, false)
-                        }
-                    }
-                };
-                if is_fault {
-                    self.feat("fault");
-                }
-                let my_order = self.ops[i].submit_order;
-                if self.ops.iter().any(|o| o.phase == Phase::Submitted && o.serial.is_some() && o.final_seq.is_none() && !o.final_skipped && o.submit_order < my_order) {
-                    self.feat("out-of-order");
-                }
-                let seq = ring.complete(serial, res, flags, false);
-                let op = &mut self.ops[i];
-                op.final_is_fault = is_fault;
-                match seq {
-                    Some(seq) => op.final_seq = Some(seq),
-                    None => op.final_skipped = true,
-                }
-                if op.phase == Phase::Dropped {
-                    self.feat("completed-after-drop");
-                }
+                self.complete_index(ring, i);
             }
             KAct::Book { ud, res, flags } => {
                 let mut f = 0;
@@ -1285,7 +1295,27 @@ impl<'a> Exec<'a> {
                     }
                     let events_before = sim::events_len();
                     let ring = self.world.ring.take();
+                    if t.inline_on_flush && pending_before > 0 {
+                        let this = ExecPtr((&mut self as *mut Exec<'_>).cast());
+                        let hook: sim::EnterHook = Box::new(move |ring, info| {
+                            let this = &this;
+                            let exec: &mut Exec<'_> = unsafe { &mut *this.0.cast::<Exec<'_>>() };
+                            if info.flags & abi::ENTER_GETEVENTS != 0 {
+                                return;
+                            }
+                            exec.sync_events();
+                            for serial in &info.consumed {
+                                let target = exec.ops.iter().position(|o| o.serial == Some(*serial) && o.final_seq.is_none() && !o.final_skipped && o.phase != Phase::NotSubmitted);
+                                if let Some(i) = target {
+                                    exec.complete_index(ring, i);
+                                    exec.feats.insert("inline-completion-on-flush".into());
+                                }
+                            }
+                        });
+                        sim::sim().enter_hook = Some(hook);
+                    }
                     let r = drop_somewhere(ring, on_thread);
+                    sim::sim().enter_hook = None;
                     ring_gone = true;
                     self.sync_events();
                     if r.is_ok() {
